@@ -168,7 +168,7 @@ func (w *vhWorld) vhAnyRequest(nRepos, nMethods int) *vhReq {
 		r.repo = vhRepoNames[vh.Choice("repo", nRepos)]
 	}
 	noise := ""
-	switch vh.Choice("noise", 3) {
+	switch vh.Choice("noise", vh.Param("NOISE", 3)) {
 	case 1:
 		noise = "/"
 	case 2:
@@ -340,6 +340,9 @@ func (w *vhWorld) vhAnyRequest(nRepos, nMethods int) *vhReq {
 		r.route = "malformed"
 		shapes := []string{"/", "/v1/", "/v2/a", "/v2/a/manifests", "/v2/a/blobs/uploads", "/v2//manifests/t1", "/v2/a/unknown/x", "/../v2/", "/v2/a/../../etc/passwd"}
 		r.path = shapes[vh.Choice("shape", len(shapes))]
+		if strings.HasPrefix(r.path, "/v2/a/") {
+			r.repo = "a" // some of these shapes are valid routes into repository a
+		}
 	}
 	return r
 }
